@@ -329,13 +329,21 @@ fn enabled(c: &Canon, ready: bool, e: &PEv) -> bool {
 /// After NEW the adapter must behave like a freshly created one.
 fn probe_fresh(sys: &mut System) -> Option<(String, String)> {
     let mut fresh = JsInterpreter::new();
-    for line in ["PRINT X;A$;B(1)", "LIST", "PRINT RND(1)", "CONT"] {
+    // a numbered program that reads an undeclared variable shows both option flags
+    for line in ["PRINT X;A$;B(1)", "LIST", "PRINT RND(1)", "CONT", "10 PRINT Q9: Z(1)=1", "RUN"] {
         let obs = |j: &mut JsInterpreter| {
             let l = line.to_string();
             guarded(|| {
                 j.start_evaluating(l);
-                let out: Vec<(u32, String)> = j.take_latest_output().into_iter().map(|o| (o.output_type as u32, o.into_string())).collect();
-                let err = j.take_latest_error();
+                let mut out: Vec<(u32, String)> = j.take_latest_output().into_iter().map(|o| (o.output_type as u32, o.into_string())).collect();
+                let mut err = j.take_latest_error();
+                let mut turns = 0;
+                while err.is_none() && j.get_state() as u32 == 1 && turns < 50 {
+                    j.continue_evaluating();
+                    out.extend(j.take_latest_output().into_iter().map(|o| (o.output_type as u32, o.into_string())));
+                    err = j.take_latest_error();
+                    turns += 1;
+                }
                 let st = j.get_state() as u32;
                 (out, err, st)
             })
